@@ -31,6 +31,7 @@ type c05Case struct {
 	Transport string    `json:"transport"`       // tcp | inproc
 	Stall     bool      `json:"stall,omitempty"` // tiny buffers and a peer that does not read until a drain step: sends block and fail with their context
 	Steps     []c05Step `json:"steps"`
+	PeerDrops bool      `json:"peerDrops,omitempty"` // after the last step the peer hangs up while calls may still be pending
 }
 
 type c05CallObs struct {
@@ -343,6 +344,13 @@ func runC05(c *c05Case) *c05Obs {
 	curStep = len(c.Steps)
 	obs.Requests = peer.SeenRequests()
 	obs.LostAtEnd = !ch.Established()
+	if c.PeerDrops {
+		// the session ends under the pending calls: each of them still ends with its response or an error, never with nothing
+		peer.Close()
+		synctest.Wait()
+		time.Sleep(6 * time.Second)
+		synctest.Wait()
+	}
 	for _, cs := range calls {
 		cs.cancel()
 	}
@@ -496,6 +504,14 @@ func judgeC05(c *c05Case, obs *c05Obs, o *Outcome) {
 	if strings.HasPrefix(obs.Note, "harness:") {
 		o.Fail("C05/harness", "%s", obs.Note)
 		return
+	}
+	if c.PeerDrops {
+		o.Class("peer-drops-under-pending-calls")
+	}
+	for i, a := range obs.Calls {
+		if a.Returned && a.Err == "" && a.RespID == "" {
+			o.Fail("C05/call-returned-nothing", "call #%d (id %s) returned neither a response nor an error", i, a.ID)
+		}
 	}
 	exp, stream, raced := c05ModelRace(c)
 	inflight, nonIdentity := 0, false
@@ -741,6 +757,7 @@ func TestC05(t *testing.T) {
 				}
 			}
 		}
+		c.PeerDrops = rapid.IntRange(0, 3).Draw(rt, "peerDrops") == 0
 		o := &Outcome{}
 		var obs *c05Obs
 		rec.Journal(c)
